@@ -51,20 +51,37 @@ def log(*a):
 
 
 class Lock:
-    """Inter-process lock (checks may run concurrently)."""
+    """Inter-process lock (checks may run concurrently); re-entrant within one process and thread-safe."""
+    _held = {}          # name -> [depth, file, owner thread id]
+    _guard = __import__("threading").RLock()
 
     def __init__(self, name):
         os.makedirs(CACHE, exist_ok=True)
+        self.name = name
         self.path = os.path.join(CACHE, name + ".lock")
 
     def __enter__(self):
-        self.f = open(self.path, "w")
-        fcntl.flock(self.f, fcntl.LOCK_EX)
+        import threading
+        me = threading.get_ident()
+        with Lock._guard:
+            h = Lock._held.get(self.name)
+            if h is not None and h[2] == me:
+                h[0] += 1
+                return self
+        f = open(self.path, "w")
+        fcntl.flock(f, fcntl.LOCK_EX)          # other processes AND other threads of this process wait here
+        with Lock._guard:
+            Lock._held[self.name] = [1, f, me]
         return self
 
     def __exit__(self, *a):
-        fcntl.flock(self.f, fcntl.LOCK_UN)
-        self.f.close()
+        with Lock._guard:
+            h = Lock._held[self.name]
+            h[0] -= 1
+            if h[0] == 0:
+                del Lock._held[self.name]
+                fcntl.flock(h[1], fcntl.LOCK_UN)
+                h[1].close()
 
 
 def run(cmd, cwd=None, timeout=None, inp=None, env=None):
